@@ -16,11 +16,14 @@ def main(rep):
         cases.append(("c%d" % i, t, m))
     for i in range(n // 2):
         cases.append(("w%d" % i, wc.gen_world_case(rng, dump_around=True), {}))
-    wk.standard_main(rep, cases=cases, monitors=MON, crash=(rep.tier != "quick"), fault=(rep.tier != "quick"),
-                     crash_monitors=["store_immutable"], fault_monitors=["store_immutable"],
+    # quick: every crash point and every single fault of the passes that run into a taken name (and of a plain
+    # pass); thorough: of every scenario family
+    only = ["drain_collision", "snapshot_collision", "drain_one", "drain_directory"] if rep.tier == "quick" else None
+    wk.standard_main(rep, cases=cases, monitors=MON, crash=True, fault=True, only=only,
+                     crash_monitors=["store_immutable"], fault_monitors=["store_immutable", "fault_reported"],
                      rule=("up to 12 versions of one file inside one version timestamp, with 0-4 of the wanted names (base, -1 .. -5) already taken by "
-                           "pre-existing files or a directory, restarts in between; plus random mixed histories; thorough: every crash point and single fault "
-                           "of the scenario families; monitors: no store file changes or disappears between consecutive dumps, every new version took the first free name"))
+                           "pre-existing files or a directory, restarts in between; plus random mixed histories; every crash point and single fault of the passes that meet a taken name (thorough: "
+                           "of all scenario families); monitors: no store file changes or disappears between consecutive dumps, every new version took the first free name"))
 
 
 def replay(rep, path):
